@@ -193,6 +193,17 @@ func (server *Server) setupServe() {
 		server.ctx = context.Background()
 	}
 	server.HTTPServer.ConnContext = updateConnContext
+
+	// the HTTP/2 server arms its idle timer from its own IdleTimeout; inherit
+	// it from the HTTP/1.1 server like http2.ConfigureServer does, so that
+	// idle connections are closed whichever protocol they negotiated
+	if server.HTTP2Server.IdleTimeout == 0 {
+		if server.HTTPServer.IdleTimeout != 0 {
+			server.HTTP2Server.IdleTimeout = server.HTTPServer.IdleTimeout
+		} else {
+			server.HTTP2Server.IdleTimeout = server.HTTPServer.ReadTimeout
+		}
+	}
 	server.HTTPServer.BaseContext = func(l net.Listener) context.Context {
 		return server.ctx
 	}
